@@ -1,7 +1,7 @@
-SPECIFICATION TraceSpec
+SPECIFICATION MCSpec
 CONSTANTS Malformed = "ascoded"
  ApiErr = "ascoded"
  Variant = "none"
-CONSTRAINT Mark
-POSTCONDITION Report
+ AltForks = {"electra"}
+INVARIANTS UpstreamStatusKept
 CHECK_DEADLOCK FALSE
